@@ -22,7 +22,7 @@ def runAllX (cfg : Cfg) (tals : List Tal) : List RunReq → Store → List Strin
   | [], _ => []
   | r :: rest, store =>
     let store := r.tampers.foldl applyTamper store
-    let out := runFullX cfg tals r.run store
+    let out := runFullX cfg (r.tals.getD tals) r.run store
     s!"r={showOpt (snapshotRefresh out.1)} d={showOpt (boundOf out.1)}"
       :: runAllX cfg tals rest out.2
 
